@@ -230,8 +230,47 @@ def _dtype_problems(name, arr):
     return bad
 
 
+def _weight_dtype_cases():
+    """sample WEIGHTS in narrow integer dtypes (uint8 counts, int8): the weighted value is the exact rational one (no wrap-around)"""
+    for dt in ("uint8", "int8", "int16", "uint16", "float32"):
+        for w in ([100, 100, 100, 100], [1, 2, 3, 100], [127, 127, 1, 1]):
+            for yp in ([1, 1, 1, 0], [0, 1, 0, 1], [1, 1, 1, 1]):
+                yield f"weights-{dt}", np.array(w, dtype=dt), yp
+
+
+def _weight_dtype_problems(name, w, yp):
+    import fairlearn.metrics as fm
+
+    bad = []
+    W = [fractions.Fraction(int(v)) for v in w.tolist()]
+    yt = [1, 0, 1, 0]
+    want = {"selection_rate": sum(W[i] for i in range(4) if yp[i] == 1) / sum(W), "mean_prediction": sum(W[i] * yp[i] for i in range(4)) / sum(W)}
+    pos = sum(W[i] for i in range(4) if yt[i] == 1)
+    want["true_positive_rate"] = sum(W[i] for i in range(4) if yt[i] == 1 and yp[i] == 1) / pos
+    for fn, val in want.items():
+        try:
+            got = float(getattr(fm, fn)(yt, yp, sample_weight=w))
+        except Exception as e:
+            bad.append(f"{fn} with {name} raised {type(e).__name__}: {e}")
+            continue
+        if abs(got - float(val)) > 1e-6:
+            bad.append(f"{fn}(y_pred={yp}, sample_weight={w.tolist()} as {w.dtype}) = {got!r}, exact {float(val)!r}")
+    return bad
+
+
 def _run_dtypes(job, acc):
     r = acc.r
+    for name, w, yp in _weight_dtype_cases():
+        r["obligations"] += 1
+        r["ob_names"]["narrow_dtype_weights_value_is_exact"] = r["ob_names"].get("narrow_dtype_weights_value_is_exact", 0) + 1
+        bad = _weight_dtype_problems(name, w, yp)
+        if bad:
+            r["sat"] += 1
+            if len([c for c in r["cex"] if c["signature"].startswith("dtype:weights")]) < 2:
+                r["cex"].append({"obligation": "narrow_dtype_weights_value_is_exact", "signature": f"dtype:{name}", "job": job, "model": {},
+                                 "extra": {"case": name, "weights": [int(v) for v in w.tolist()], "wdtype": str(w.dtype), "yp": yp, "problems": bad}})
+        else:
+            r["discharged"] += 1
     for name, arr in _dtype_cases():
         r["obligations"] += 1
         r["ob_names"]["narrow_dtype_value_is_exact"] = r["ob_names"].get("narrow_dtype_value_is_exact", 0) + 1
@@ -305,6 +344,10 @@ def replay(cex):
     import fairlearn.metrics as fm
 
     job, mdl = cex["job"], cex["model"]
+    if job["kind"] == "dtypes" and cex["extra"]["case"].startswith("weights-"):
+        e = cex["extra"]
+        bad = _weight_dtype_problems(e["case"], np.array(e["weights"], dtype=e["wdtype"]), e["yp"])
+        return {"reproduced": bool(bad), "signature": f"dtype:{e['case']}", "detail": "; ".join(bad)[:500]}
     if job["kind"] == "dtypes":
         allbad = []
         for name, arr in _dtype_cases():
